@@ -118,7 +118,7 @@ fn core(ctx: &mut Ctx) {
     ctx.subject(&name);
     let b = ctx.cfg.bs;
     let w = ctx.cfg.par;
-    let (iv, _) = wl::ctr_iv(&mut ctx.rng, d.flavor, b);
+    let (iv, _) = stream_iv(ctx, d.flavor, b);
     let (n, _) = wl::nblocks(&mut ctx.rng, w, b, ctx.tier);
     let (data, _) = wl::data(&mut ctx.rng, n * b);
     let (sizes, sc) = wl::schedule(&mut ctx.rng, n, w);
